@@ -85,6 +85,11 @@ class ObservedLogic(rl.ReconnectLogic):
             self.acts.append("fail_counted:" + ("auth" if v == rl.MAXIMUM_BACKOFF_TRIES else "other"))
         self.__dict__["_t"] = v
 
+    async def stop(self):
+        await super().stop()
+        if self.acts is not None:
+            self.acts.append("stop_ret")
+
 
 class Bench:
     def __init__(self, has_name=True, susp=(False, False, False)):
@@ -181,6 +186,8 @@ class Bench:
             return "connect"
         if q == "ReconnectLogic._on_disconnect":
             return "disc"
+        if q.endswith("Logic.stop"):
+            return "stop"
         return None
 
     def kind_of_handle(self, h):
@@ -260,10 +267,11 @@ class Bench:
             self.rc_tasks.append(tasks._PyTask(go(), loop=loop, name="rc-start", eager_start=True))
             self.emit("start")
         elif op == "stop":
-            async def go():
-                await mgr.stop()
-                self.acts.append("stop_ret")
-            self.rc_tasks.append(tasks._PyTask(go(), loop=loop, name="rc-stop", eager_start=True))
+            self.rc_tasks.append(tasks._PyTask(mgr.stop(), loop=loop, name="rc-stop", eager_start=True))
+            self.emit("stop")
+        elif op == "stopcb":
+            # the synchronous entry point: the manager makes the stop() task itself (seen through create_eager_task)
+            mgr.stop_callback()
             self.emit("stop")
         elif k[0] == "sock":
             pend = [f for f in net.sock_futs if not f.done()]
@@ -330,7 +338,7 @@ class Bench:
             raise ValueError(op)
 
 
-OPS = ["start", "stop", "sock:ok", "sock:fail", "fin:ok", "fin:auth", "fin:reset", "end:reset", "end:dev",
+OPS = ["start", "stop", "stopcb", "sock:ok", "sock:fail", "fin:ok", "fin:auth", "fin:reset", "end:reset", "end:dev",
        "zc:ptr", "zc:a", "zc:ptr_other", "zc:a_other", "zc:txt", "timer", "wait:1", "wait:3", "pop", "settle", "cb_done"]
 
 # histories for user callbacks that await something: the task sits in the callback, holding the lock, until cb_done
@@ -368,6 +376,11 @@ SKELETONS = {
     "fin-fail": ["start", "settle", "sock:ok", "settle", "fin:reset", "settle", "timer", "settle", "sock:ok", "settle", "fin:reset",
                  "settle", "zc:ptr", "settle", "sock:ok", "settle", "fin:ok", "settle"],
 }
+
+
+for _n in ("happy", "stop-early", "stop-start-live"):
+    SKELETONS[_n + "/stopcb"] = ["stopcb" if o == "stop" else o for o in SKELETONS[_n]]
+SUSP_SKELETONS["s-stop-in-cb/stopcb"] = ["stopcb" if o == "stop" else o for o in SUSP_SKELETONS["s-stop-in-cb"]]
 
 
 class Oracle:
